@@ -6,6 +6,7 @@ with one step of the abstract fold written from the property statement.  Rooms a
 never materialised, which is the frame condition "nothing else changes"."""
 from __future__ import annotations
 
+import ast
 import z3
 
 from pyvc.ctx import Ctx, Explorer, Unsupported, PathAbort
@@ -30,7 +31,7 @@ ASSUMPTIONS = [
     'time.time() is side-effect free',
 ]
 TRUSTED_BASE = ['pyvc engine', 'z3 (sets, arrays, strings with equality only)', 'fold step table in contracts/C19.py']
-NOT_DECIDED = ['RoomList.Response and PrivilegedUsers.Response (loops over the whole replica): not under contract', 'JoinRoom.Response / RoomTickers.Response: bounded stand-in only (lists of length <= 2)', 'JoinRoom.Response: the weakest reading is used for the user list (superset of the announced users, nothing outside old + announced)']
+NOT_DECIDED = ['RoomList.Response: the closing normalisation loop is under contract, the four list loops and the removal of unlisted rooms are not', 'JoinRoom.Response / RoomTickers.Response: bounded stand-in only (lists of length <= 2)', 'JoinRoom.Response: the weakest reading is used for the user list (superset of the announced users, nothing outside old + announced)']
 
 
 def sstr(ctx, name):
@@ -471,8 +472,126 @@ def prove_user_handlers(src_root, ex: Explorer):
     ex.run(private_message, 'user-private-message')
 
 
+# ---------------------------------------------------------------------------
+# the two notifications that loop over the whole replica: loop contracts (one ARBITRARY element)
+
+ROOMLIST = f'{RM}:RoomManager._on_room_list'
+PRIV = f'{UM}:UserManager._on_privileged_users'
+
+
+def prove_replica_loops(src_root, ex: Explorer):
+    def room_list_normalise(ctx: Ctx):
+        """RoomList.Response, the closing loop over ALL known rooms, one arbitrary (name, room): lists replace -
+             owner      cleared only if it was the logged-in user and the room is no longer listed as owned (the owner of somebody
+                        else's private room is left alone)
+             operators  lose the logged-in user iff the room is not listed as operated; members likewise for `rooms_private`
+             private    iff the room is not in the public list; nothing else about the room changes"""
+        it = mk(src_root, ctx)
+        w = World(it, ctx)
+        lists = {k: SymSeq(ctx, k) for k in ('rooms', 'rooms_private_owned', 'rooms_private', 'rooms_private_operated')}
+        counts = {k: Opaque(k) for k in ('rooms_user_count', 'rooms_private_owned_user_count', 'rooms_private_user_count')}
+        msg = Stub('RoomList.Response', **lists, **counts)
+        name = sstr(ctx, 'room_name')
+        room = w.room_factory(it, name)
+        pre = World.snapshot(room)
+
+        class Rooms:
+            def pyvc_getattr(self, it2, n):
+                if n in ('items', 'keys', 'values'):
+                    return Native(n, lambda it3, a, k: (n, self))
+                raise Unsupported(n)
+        rooms = Rooms()
+        w.mgr.attrs['_rooms'] = rooms
+        seen = []
+
+        def skip(it2, node, env):
+            return
+
+        def final(it2, node, env):
+            src = it2.eval(node.iter, env)
+            it2.assign(node.target, (name, room), env)
+            it2.exec_block(node.body, env)
+            seen.append(src)
+        for o in range(5):
+            it.loop_specs[(ROOMLIST, o)] = skip
+        it.loop_specs[(ROOMLIST, 5)] = final
+        orig_set = it.natives['builtins.set']
+        it.natives['builtins.set'] = Native('builtins.set', lambda it2, a, k: SymSet.fresh(ctx, 'keys') if a and isinstance(a[0], tuple) and a[0][0] == 'keys' else orig_set.fn(it2, a, k))
+        orig_list = it.natives['builtins.list']
+        it.natives['builtins.list'] = Native('builtins.list', lambda it2, a, k: ['ALL-ROOMS'] if a and isinstance(a[0], tuple) and a[0][0] == 'values' else orig_list.fn(it2, a, k))
+        try:
+            run(it, it.getattr(w.mgr, '_on_room_list'), msg, Opaque('connection'))
+        except PyRaise as pr:
+            ctx.fail('C19._on_room_list.normalise.no-raise', repr(pr.exc))
+            return
+        ctx.prove('C19._on_room_list.normalise.all-rooms', len(seen) == 1 and seen[0] == ('items', rooms), 'the closing loop must visit every known room')
+        post = World.snapshot(room)
+        me = w.me.t
+        mem = z3.IsMember
+        owned, operated, private, public = (mem(name.t, lists[k].elems) for k in ('rooms_private_owned', 'rooms_private_operated', 'rooms_private', 'rooms'))
+        po, qo = pre['owner'], post['owner']
+        if po is None:
+            owner_ok = z3.BoolVal(qo is None)
+        else:
+            cleared = z3.And(z3.Not(owned), z3str(po) == me)
+            owner_ok = z3.If(cleared, z3.BoolVal(qo is None), z3.BoolVal(qo is not None) if qo is None else z3str(qo) == z3str(po))
+        ctx.prove('C19._on_room_list.normalise.owner', owner_ok,
+                  'the owner may be cleared only when it was the logged-in user and the room is no longer listed as owned; the owner of '
+                  "another user's private room must stay")
+        ctx.prove('C19._on_room_list.normalise.operators', post['operators'] == z3.If(operated, pre['operators'], z3.SetDel(pre['operators'], me)))
+        ctx.prove('C19._on_room_list.normalise.members', post['members'] == z3.If(private, pre['members'], z3.SetDel(pre['members'], me)))
+        ctx.prove('C19._on_room_list.normalise.private', bterm(post['private']) == z3.Not(public))
+        ctx.prove('C19._on_room_list.normalise.frame', z3.And(post['users'] == pre['users'], bterm(post['joined']) == bterm(pre['joined']),
+                                                              z3int(unbox(post['user_count'])) == z3int(unbox(pre['user_count'])),
+                                                              post['tickers'][0] == pre['tickers'][0]))
+    ex.run(room_list_normalise, 'room-list-normalise')
+
+    def privileged(ctx: Ctx):
+        """PrivilegedUsers.Response, the loop over ALL known users, one arbitrary user: privileged iff listed (the list REPLACES the old
+        set, so a user that is no longer listed loses the flag); the stored set becomes the set of the list"""
+        it = mk(src_root, ctx)
+        w = World(it, ctx)
+        users = SymSeq(ctx, 'privileged_users')
+        msg = Stub('PrivilegedUsers.Response', users=users)
+        uname = sstr(ctx, 'user')
+        u = w.user_factory(it, uname.t, known=True)
+
+        class Users:
+            def pyvc_getattr(self, it2, n):
+                if n in ('items', 'keys', 'values'):
+                    return Native(n, lambda it3, a, k: (n, self))
+                raise Unsupported(n)
+        store = Users()
+        bus = Stub('bus', emit=Recorder('emit', fn=lambda it2, a, k: w.emitted.append(a[0]), is_async=True))
+        mgr = new(it, UM, 'UserManager', _users=store, _privileged_users=SymSet.fresh(ctx, 'old_privileged'), _event_bus=bus)
+        it.hooks[f'{UM}:UserManager.get_user_object'] = lambda it2, f, a, k: Opaque('user')
+        orig_map = it.natives['builtins.map']
+        it.natives['builtins.map'] = Native('builtins.map', lambda it2, a, k: [] if a[1] is users else orig_map.fn(it2, a, k))
+        seen = []
+
+        def loop(it2, node, env):
+            src = it2.eval(node.iter, env)
+            tgt = node.target
+            it2.assign(tgt, u if not isinstance(tgt, ast.Tuple) else (uname, u), env)
+            it2.exec_block(node.body, env)
+            seen.append(src)
+        it.loop_specs[(PRIV, 0)] = loop
+        try:
+            run(it, it.getattr(mgr, '_on_privileged_users'), msg, Opaque('connection'))
+        except PyRaise as pr:
+            ctx.fail('C19._on_privileged_users.no-raise', repr(pr.exc))
+            return
+        ctx.prove('C19._on_privileged_users.all-users', len(seen) == 1 and isinstance(seen[0], tuple) and seen[0][1] is store,
+                  'the list replaces the privileges: every KNOWN user must be visited, not only the listed ones')
+        ctx.prove('C19._on_privileged_users.flag', bterm(u.attrs['privileged']) == z3.IsMember(uname.t, users.elems),
+                  'a known user is privileged iff listed (a user dropped from the list loses the flag)')
+        pu = mgr.attrs['_privileged_users']
+        ctx.prove('C19._on_privileged_users.set', isinstance(pu, SymSet) and ctx.valid(pu.term == users.elems))
+    ex.run(privileged, 'privileged-users')
+
+
 def items(src_root, tier):
-    return [('room', h) for h in ROOM_HANDLERS] + [('reset', None), ('users', None), ('bounded', None)]
+    return [('room', h) for h in ROOM_HANDLERS] + [('reset', None), ('users', None), ('replica', None), ('bounded', None)]
 
 
 def run_item(src_root, item, tier):
@@ -487,6 +606,9 @@ def run_item(src_root, item, tier):
             prove_reset(src_root, ex)
         elif kind == 'bounded':
             prove_bounded_loops(src_root, ex, res)
+        elif kind == 'replica':
+            prove_replica_loops(src_root, ex)
+            res.functions.update([ROOMLIST, PRIV])
         elif kind == 'users':
             prove_user_handlers(src_root, ex)
             res.functions.update([f'{UM}:UserManager._on_get_user_status', f'{UM}:UserManager._on_get_user_stats',
